@@ -329,6 +329,11 @@ class Origins(object):
         mode = self.transparent.get(name)
         rec = lambda x: self._expand(x, nid, out, seen, env, depth + 1)
         if mode:
+            if isinstance(mode, (tuple, list)):
+                for i in mode:
+                    if i < len(c.args):
+                        rec(c.args[i])
+                return
             if "recv" in mode and isinstance(f, ast.Attribute):
                 rec(f.value)
             if "all" in mode or not isinstance(f, ast.Attribute):
@@ -336,10 +341,6 @@ class Origins(object):
                     rec(a)
                 for kw in c.keywords:
                     rec(kw.value)
-            elif isinstance(mode, (tuple, list)):
-                for i in mode:
-                    if i < len(c.args):
-                        rec(c.args[i])
             return
         ch = attr_chain(f)
         out.add(Atom("call", ch or unparse(f), c, nid))
